@@ -21,7 +21,8 @@ structure TreeResult where
   deriving Inhabited
 
 /-- `tree()`: the loop is unrolled into recursion on the remaining tokens; `fuel` bounds the number of
-    loop iterations plus recursive calls (`tokens.length + 1` suffices: lemma `tree_fuel_irrelevant`). -/
+    loop iterations plus recursive calls; `tokens.length + 1` suffices: `Props.C10.c10` shows that `parse`, which
+    starts with that fuel, equals the fuel-free stack machine on every token list). -/
 def tree (ds de : List Char) : Nat → List Token → List (List Char) → TreeResult
   | 0, _, _ => ⟨[], [], none⟩
   | _ + 1, [], _ => ⟨[], [], none⟩
